@@ -19,6 +19,7 @@ func init() {
 	generators["c07stall"] = genC07stall
 	generators["c08"] = genC08
 	generators["c08edges"] = genC08edges
+	generators["stopbulk"] = genStopThenBulk
 	generators["c09"] = genC09
 	generators["c10"] = genC10
 	generators["c10busy"] = genC10busy
@@ -28,6 +29,7 @@ func init() {
 	generators["c12slowstop"] = genC12slowstop
 	generators["c15timer"] = genC15timer
 	generators["c11accept"] = genC11accept
+	generators["c11readtimeout"] = genC11ReadTimeout
 	generators["c13"] = genC13
 	generators["c17"] = genC17
 }
@@ -265,6 +267,32 @@ func genC08(g *Gen) {
 	}
 }
 
+// Stop while a handler is running but not writing (waiting for a backend); the client does not
+// read; after Stop's interrupt pass the handler writes more than the socket buffers hold.  The
+// interrupt must hold for writes that START after it
+func stopThenBulk(g *Gen, nconn int, double bool) {
+	s := newScen("fixed")
+	s.op("run 1 1")
+	for c := 0; c < nconn; c++ {
+		s.op("connect")
+	}
+	for c := 0; c < nconn; c++ {
+		s.op(fmt.Sprintf("stall %d 1", c))
+		s.send(c, s.req("normal", "b5", "W"))
+	}
+	s.op("stop")
+	s.op("release 5")
+	if double {
+		s.op("stop")
+	}
+	s.emit(g)
+}
+
+func genStopThenBulk(g *Gen) {
+	stopThenBulk(g, 1, false)
+	stopThenBulk(g, 3, true)
+}
+
 // C08 (continued): the request and the client's EOF arrive together; an upgraded
 // (TLS) connection is reset by the client
 func genC08edges(g *Gen) {
@@ -315,6 +343,27 @@ func genC08edges(g *Gen) {
 // C09: connect / request / close / reconnect histories
 func genC09(g *Gen) {
 	r := g.rng
+	// the id survives a StartTLS upgrade: upgrades requested as the 1st, 2nd and 3rd request of
+	// connections 1, 2 and 3 (request number and connection id differ), requests before and after
+	up := newScen("fixed")
+	up.op("run 1 1")
+	for c := 0; c < 3; c++ {
+		up.op("connect")
+	}
+	for c := 0; c < 3; c++ {
+		for k := 0; k < 2-c; k++ {
+			up.send(c, up.req("normal", "w"))
+		}
+		up.send(c, up.req("starttls", "w", "hs"))
+		up.send(c, "hello")
+		up.send(c, up.req("normal", "w"))
+		up.send(c, up.req("normal", "w"))
+	}
+	up.op("connect")
+	up.send(3, up.req("normal", "w"))
+	up.op("close 1")
+	up.op("stop")
+	up.emit(g)
 	for i := 0; i < g.n; i++ {
 		s := newScen("fixed")
 		s.op("run 1 1")
@@ -446,6 +495,33 @@ func genC11(g *Gen) {
 	}
 }
 
+// C11 (continued): a long read timeout is configured (WithReadTimeout); Stop arrives while the
+// connection is not inside a read (an inline StartTLS handler waits before its handshake, a
+// handler is busy).  Reads that START after the interrupt must fail at once: the client, which
+// sends nothing more, must not decide when Stop returns
+func genC11ReadTimeout(g *Gen) {
+	for _, nconn := range []int{1, 3} {
+		s := newScen("fixed:readtimeout=60000")
+		s.op("run 1 1")
+		for c := 0; c < nconn; c++ {
+			s.op("connect")
+			s.send(c, s.req("starttls", "b7", "w", "hs"))
+		}
+		s.op("stop")
+		s.op("release 7")
+		s.emit(g)
+	}
+	// the same without a handshake: idle and pipelining connections under a read timeout
+	s := newScen("fixed:readtimeout=60000")
+	s.op("run 1 1")
+	s.op("connect")
+	s.op("connect")
+	s.send(1, s.req("normal", "w"), s.req("normal", "b7", "w"))
+	s.op("stop")
+	s.op("release 7")
+	s.emit(g)
+}
+
 // C11 (continued): Stop after descriptor exhaustion at accept time
 func genC11accept(g *Gen) {
 	for _, n := range []int{1, 2} {
@@ -555,6 +631,30 @@ func genC12(g *Gen) {
 		s.op("release 4")
 		s.op("stop")
 		s.emit(g)
+		// a second Stop while the first is still waiting (a signal handler and a deferred Stop):
+		// neither may return before the handler has ended, the conn is closed and OnClose is done
+		s = newScen("fixed")
+		s.op("run 1 1")
+		for c := 0; c < nconn; c++ {
+			s.op("connect")
+			s.send(c, s.req("normal", "b4", "w"))
+		}
+		s.op("stop")
+		s.op("stop")
+		s.op("release 4")
+		s.emit(g)
+		s = newScen("fixed")
+		s.op("run 1 1")
+		for c := 0; c < nconn; c++ {
+			s.op("connect")
+		}
+		s.send(0, s.req("normal", "w"))
+		s.op("holdonclose 1")
+		s.op("stop")
+		s.op("stop")
+		s.op("stop")
+		s.op("holdonclose 0")
+		s.emit(g)
 		// teardown in progress when Stop arrives
 		s = newScen("fixed")
 		s.op("run 1 1")
@@ -599,6 +699,30 @@ func genC13(g *Gen) {
 			s.op("stop")
 			s.emit(g)
 		}
+	}
+	// handshakes that fail on other connections (the client sends something that is no
+	// ClientHello) leave nothing behind: after 40 of them a conforming session is upgraded
+	// and served like the first one
+	{
+		sf := newScen("fixed")
+		sf.op("run 1 1")
+		sf.op("connect")
+		sf.send(0, sf.req("starttls", "w", "hs"))
+		sf.send(0, "hello")
+		sf.send(0, sf.req("normal", "w"))
+		for c := 1; c <= 40; c++ {
+			sf.op("connect")
+			sf.send(c, sf.req("starttls", "w", "hs"))
+			sf.send(c, "bad")
+		}
+		for c := 41; c <= 42; c++ {
+			sf.op("connect")
+			sf.send(c, sf.req("starttls", "w", "hs"))
+			sf.send(c, "hello")
+			sf.send(c, sf.req("normal", "w"))
+		}
+		sf.op("stop")
+		sf.emit(g)
 	}
 	// Stop while upgraded sessions are open: whatever the server still sends is inside TLS records
 	s0 := newScen("fixed")
